@@ -163,19 +163,24 @@ func (c *connection) Skip(n int) (err error) {
 func (c *connection) Release() (err error) {
 	// Check inputBuffer length first to reduce contention in mux situation.
 	// c.operator.do competes with c.inputs/c.inputAck
-	if c.inputBuffer.Len() == 0 && c.operator.do() {
-		maxSize := c.inputBuffer.calcMaxSize()
-		// Set the maximum value of maxsize equal to mallocMax to prevent GC pressure.
-		if maxSize > mallocMax {
-			maxSize = mallocMax
-		}
+	// A closed connection no longer owns its operator: the slot may have been recycled and
+	// handed to another connection, whose token must not be taken (and the closed input
+	// buffer has no nodes left to measure).
+	if c.inputBuffer.Len() == 0 && c.IsActive() && c.operator.do() {
+		if c.IsActive() {
+			maxSize := c.inputBuffer.calcMaxSize()
+			// Set the maximum value of maxsize equal to mallocMax to prevent GC pressure.
+			if maxSize > mallocMax {
+				maxSize = mallocMax
+			}
 
-		if maxSize > c.maxSize {
-			c.maxSize = maxSize
-		}
-		// Double check length to reset tail node
-		if c.inputBuffer.Len() == 0 {
-			c.inputBuffer.resetTail(c.maxSize)
+			if maxSize > c.maxSize {
+				c.maxSize = maxSize
+			}
+			// Double check length to reset tail node
+			if c.inputBuffer.Len() == 0 {
+				c.inputBuffer.resetTail(c.maxSize)
+			}
 		}
 		c.operator.done()
 	}
